@@ -87,7 +87,9 @@ def run(tier, seed):
     chk.cov["pixels_compared"] = frames * 49152
     chk.cov["rule"] = (f"{shards} shards x {1 if quick else 3} rounds x 16 delivery paths (CPU writes via 0x4000 and via 0xC000 with bank 5 / bank 7 paged, "
                        "LDIR, tape fast-load, 48K/128K SNA, stored/compressed/shuffled SZX, SCR, pokes; 48K, 128K, shadow screen) with random and structured "
-                       "screens; >= 2 judged frames per path, one path per round over 36 frames (flash period), and single-byte writes at beam time +-40 T")
+                       "screens; >= 2 judged frames per path, one path per round over 36 frames (flash period); per path ~100 writes (poke / CPU / bus) that the "
+                       "memory map keeps out of the visible display file (beyond it, other banks, the other screen bank, addresses sharing low address "
+                       "bits with display bytes) followed by judged frames; and single-byte writes at beam time +-40 T")
     chk.assumptions += ["the two frames after a delivery are not judged (memory changed during them); they count for the flash phase",
                         "flash phase is inferred: some phase in 0..31 must explain every frame since the last reset"]
     return chk.finish()
